@@ -430,7 +430,7 @@ func runProperty(eng *Engine, prop, tier string, timeout int, findings []Finding
 		for _, j := range retry {
 			again = append(again, &solveJob{name: j.name, text: j.text})
 		}
-		solveAll(tmp, again, "thorough", timeout*4, 8)
+		solveAll(tmp, again, "quick", timeout*3, 8)
 		for i, j := range retry {
 			if again[i].res.Status == "unsat" || again[i].res.Status == "sat" {
 				first := j.res.Tried
